@@ -157,6 +157,12 @@ func (e *Engine) loadContracts() error {
 
 func (e *Engine) addContractFile(cf *ContractFile) {
 	e.files = append(e.files, cf)
+	for alias, path := range cf.Imports {
+		if e.importNames[cf.PkgPath] == nil {
+			e.importNames[cf.PkgPath] = map[string]string{}
+		}
+		e.importNames[cf.PkgPath][alias] = path
+	}
 	for _, fc := range cf.Funcs {
 		if fc.Extern && cf.PkgPath != "" && !strings.ContainsAny(fc.Key, "/(") && !strings.HasPrefix(fc.Key, "iface ") {
 			// assumed contract of an in-repo function (body not verified): listed as an assumption
@@ -367,6 +373,9 @@ func (r *Run) verifyTop() {
 		args = append(args, t)
 		env.vars[p.Name()] = SV{t: t, T: p.Type()}
 		env.vars[fmt.Sprintf("arg%d", i)] = SV{t: t, T: p.Type()}
+		if i < len(fc.Params) {
+			env.vars[fc.Params[i]] = SV{t: t, T: p.Type()}
+		}
 		r.inputs = append(r.inputs, inputVar{Name: p.Name(), Term: t.S, Sort: s, Type: shortTypeName(p.Type())})
 	}
 	var bindings []Val
